@@ -147,9 +147,82 @@ let ts_run (ns : string) (mx : string) (init : string) (ops : string) : string =
     (w', (ts_resp a ^ "|" ^ ts_state ids w') :: acc)) (w0, []) reqs in
   "TS " ^ String.concat "/" (List.rev outs)
 
+(* ---- search layer (FndSearchC19.v).  The rewriters are ORACLES: the answers which the real
+   validators (email, tel) and authenticators (basic, the others) gave when the driver asked them
+   directly (request O), read from the file named by VERIF_C19ORACLE: cc term email tel basic other ---- *)
+let oracle : (string * string, string array) Hashtbl.t = Hashtbl.create 4096
+let oracle_loaded = ref false
+let load_oracle () =
+  if not !oracle_loaded then begin
+    oracle_loaded := true;
+    (try
+      let ic = open_in (Sys.getenv "VERIF_C19ORACLE") in
+      (try while true do
+        match String.split_on_char ' ' (input_line ic) with
+        | [cc; term; a; b; c; d] -> Hashtbl.replace oracle (cc, term) [| a; b; c; d |]
+        | _ -> ()
+      done with End_of_file -> close_in ic)
+    with Not_found -> ())
+  end
+let cc_key (cc : BinNums.coq_N list) = match cc with [] -> "-" | _ -> encode cc
+let ask (col : int) (cc : BinNums.coq_N list) (term : BinNums.coq_N list) : BinNums.coq_N list =
+  match Hashtbl.find_opt oracle (cc_key cc, str_of_runes term) with
+  | Some a -> runes_of_hex a.(col)
+  | None -> []
+let o_vals = [ask 0; ask 1]
+(* AsTag does not see the country code; the key of the request (country code + configuration of the
+   driver process that served it) selects the rows *)
+let cc_of (s : string) = if s = "-" then [] else decode s
+let o_auths (key : string) = [ask 2 (cc_of key); ask 3 (cc_of key)]
+let rewrite_real cc wl = FndSearchC19.rewrite_tag_c19 is_letter is_number o_vals (o_auths cc) (cc_of cc) (wl = "1")
+
+let q_opt (s : string) = if s = "~" then None else Some (runes_of_hex s)
+let fs_sess cc i = { FndSearchC19.s_id = nn i; FndSearchC19.s_root = (i = "3"); FndSearchC19.s_cc = cc }
+let fs_req cc (s : string) : FndSearchC19.freq_c19 =
+  match String.split_on_char '.' s with
+  | ["d"; i; p; v] -> FndSearchC19.FSetDesc (fs_sess cc i, q_opt p, q_opt v)
+  | ["g"; i] -> FndSearchC19.FGetSub (fs_sess cc i)
+  | ["u"] -> FndSearchC19.FUnload
+  | ["t"] -> FndSearchC19.FUserTags
+  | _ -> failwith ("bad request " ^ s)
+let fs_groups = function [] -> "-" | a -> String.concat ";" (List.map (fmt_list "+") a)
+let fs_resp = function
+  | FndSearchC19.FCtrl code -> Printf.sprintf "c%d" (int_of_n code)
+  | FndSearchC19.FMeta ids -> "m" ^ String.concat "," (List.map string_of_int (List.sort compare (List.map int_of_n ids)))
+  | FndSearchC19.FNone -> "n"
+let fs_call = function
+  | None -> "-"
+  | Some k ->
+    let a = fs_groups k.FndSearchC19.k_req ^ "!" ^ fmt_list "," k.FndSearchC19.k_opt ^ "!" ^ b2s k.FndSearchC19.k_active in
+    "U!" ^ a ^ "&T!" ^ a
+let fs_q = function None -> "~" | Some q -> str_of_runes q
+let fs_state (t : FndSearchC19.fnd_c19) =
+  fmt_list "," (Tags.sort_strings t.FndSearchC19.f_tags) ^ "!"
+  ^ String.concat "," (List.map (fun i -> fs_q (FndSearchC19.lookup_pub_c19 (n_of_int i) t.FndSearchC19.f_public)) [1; 2; 3])
+  ^ "!" ^ fs_q t.FndSearchC19.f_private
+let fs_run masked own cckey cands ops =
+  let cc = cc_of cckey in
+  let o_auths = o_auths cckey in
+  let world = { FndSearchC19.cd_id = n_of_int 0; FndSearchC19.cd_user = true; FndSearchC19.cd_ok = true; FndSearchC19.cd_tags = list_of' own }
+    :: List.map (fun s -> match String.split_on_char '.' s with
+      | [i; k; st; l] -> { FndSearchC19.cd_id = nn i; FndSearchC19.cd_user = (k = "u"); FndSearchC19.cd_ok = (st = "0");
+                           FndSearchC19.cd_tags = list_of' l }
+      | _ -> failwith ("bad candidate " ^ s)) (split ';' cands) in
+  let c = { FndSearchC19.fc_masked = list_of' masked; FndSearchC19.fc_own = list_of' own;
+            FndSearchC19.fc_self = n_of_int 0; FndSearchC19.fc_world = world } in
+  let _, outs = List.fold_left (fun (t, acc) r ->
+    let (t', (a, k)) = FndSearchC19.step_c19 lower is_letter is_number o_vals o_auths c t r in
+    (t', (fs_resp a ^ "|" ^ fs_call k ^ "|" ^ fs_state t') :: acc))
+    (FndSearchC19.load_c19 None, []) (List.map (fs_req cc) (split '/' ops)) in
+  "FS " ^ String.concat "/" (List.rev outs)
+
 let handle (w : string list) : string =
   load ();
+  load_oracle ();
   match w with
+  | ["WR"; cc; wl; h] -> "WR " ^ str_of_runes (rewrite_real cc wl (runes_of_hex h))
+  | ["QR"; cc; wl; h] -> show_q "QR" (Query.parse lower (rewrite_real cc wl) (runes_of_hex h))
+  | ["FS"; masked; own; cc; cands; ops] -> fs_run masked own cc cands ops
   | ["Q"; wl; h] -> show_q "Q" (Query.parse lower (rewrite (wl = "1")) (runes_of_hex h))
   | ["QU"; wl; h] -> show_q "QU" (Query.parse_unrepaired lower (rewrite (wl = "1")) (runes_of_hex h))
   | ["QS"; wl; h] ->
